@@ -1,1 +1,107 @@
-pub fn main(_o: &crate::common::Opts) {}
+//! C45: gathered tables carry every column the statement reads.
+//!
+//! One case = one sqlgen statement that takes the GATHER path (`plan_distributed` refuses it), over a multi-table
+//! catalog written as Parquet, one cluster of N in-process participants (machinery: `fam_c09::cluster`).
+//!
+//! case : {"prop":"C45","mode":"meta","sql","plan","tables","cat","tags","engine_defined","layout":{"files","rg"},"n":N,"self":K|null}
+//! impl : {"gather": {"tables":[{"name","columns":[…]|null,"gather_sql"}]} | {"err":kind,"msg"},
+//!         "refused": why plan_distributed refused (text),
+//!         "optimized": exported optimized plan (the plan `collect_scans` walks; format lean/Driver/PlanJson.lean),
+//!         "bound": exported bound plan of the ORIGINAL statement,
+//!         "schemas": {table:[column names in provider schema order]},
+//!         "runs": {"local": single-node outcome, "gathered": `execute_gathered(plan_gather(sql))`,
+//!                  "full": `execute_gathered` over EVERY column of EVERY table (the path itself, without pruning)}}
+use crate::common::*;
+use crate::fams::fam_c09::cluster::*;
+use crate::fams::fam_c32::planexport;
+use crate::fams::fam_sql::sqlgen::{catalog::*, gen::*};
+use crate::rng::Rng;
+use query_engine::distributed::{execute_gathered, plan_distributed, plan_gather};
+use query_engine::error::QueryError;
+use serde_json::{json, Value};
+use std::sync::Mutex;
+
+fn plan_or_err(p: Result<query_engine::planner::LogicalPlan, QueryError>) -> Value {
+    match p { Ok(x) => planexport::plan_json(&x), Err(e) => err_json(&e) }
+}
+
+pub fn run_case(case: &Value) -> Value {
+    let env = match env_for(case) { Ok(e) => e, Err(e) => return json!({"setup_error": e}) };
+    let sql = case["sql"].as_str().unwrap_or("");
+    let n = case["n"].as_u64().unwrap_or(2) as usize;
+    let self_ix = case["self"].as_u64().map(|x| x as usize);
+    let refused = match std::panic::catch_unwind(std::panic::AssertUnwindSafe(|| plan_distributed(&env.base, sql))) {
+        Ok(Ok(p)) => json!({"scatter": format!("{:?}", p.shape)}),
+        Ok(Err(e)) => json!(e.to_string().chars().take(200).collect::<String>()),
+        Err(_) => json!("panic"),
+    };
+    let gp = std::panic::catch_unwind(std::panic::AssertUnwindSafe(|| plan_gather(&env.base, sql)));
+    let mut schemas = serde_json::Map::new();
+    for name in &env.names {
+        if let Some(p) = env.base.table_provider(name) { schemas.insert(name.clone(), json!(p.schema().fields().iter().map(|f| f.name().clone()).collect::<Vec<_>>())); }
+    }
+    let optimized = guarded(std::panic::AssertUnwindSafe(|| plan_or_err(env.base.optimized_plan(sql))));
+    let bound = guarded(std::panic::AssertUnwindSafe(|| plan_or_err(env.base.logical_plan(sql))));
+    let mut runs = serde_json::Map::new();
+    runs.insert("local".into(), run_local(&env, sql));
+    let gather = match gp {
+        Ok(Ok(plan)) => {
+            let parts = participants(n, self_ix);
+            let tr = InProc { peer: env.peer.clone(), served: Mutex::new(vec![]) };
+            let out = guarded_block(async { match execute_gathered(&env.base, &plan, &parts, &tr).await { Ok(r) => batches_json(&r.result.batches), Err(e) => err_json(&e) } }, 60);
+            runs.insert("gathered".into(), out);
+            json!({"tables": plan.tables.iter().map(|t| json!({"name": t.name, "columns": t.columns, "gather_sql": t.gather_sql})).collect::<Vec<_>>()})
+        }
+        Ok(Err(e)) => err_json(&e),
+        Err(_) => json!({"panic": "plan_gather"}),
+    };
+    runs.insert("full".into(), run_full_gather(&env, sql, n, self_ix));
+    json!({"gather": gather, "refused": refused, "optimized": optimized, "bound": bound, "schemas": Value::Object(schemas), "runs": Value::Object(runs)})
+}
+
+pub fn main(o: &Opts) {
+    if let (Some(p), None) = (&o.replay, o.get("probe")) { for c in replay_cases(p) { let i = run_case(&c); emit(c, i); } return; }
+    let mut copts = CatOpts::from_opts(o);
+    if o.get("tables").is_none() { copts.max_tables = 4; }
+    // `--opt probe="SELECT …"`: one statement over the seed's catalog: gather plan, exported plans, the three runs
+    if let Some(sql) = o.get("probe") {
+        let mut r = Rng::new(o.seed);
+        let cat = match o.get("from") { Some(f) => Catalog::from_case(&replay_cases(f)[0]), None => gen_catalog(&mut r, &copts) };
+        for t in &cat.tables { eprintln!("{} {:?} rows={}", t.name, t.cols.iter().map(|c| format!("{}:{}:{}%", c.name, c.cty.name(), c.null_pct)).collect::<Vec<_>>(), t.rows.len()); }
+        let case = json!({"sql": sql, "tables": cat.tables_json(), "cat": cat.meta_json(), "layout": {"files": o.get_usize("files", 2), "rg": o.get_usize("rg", 5)}, "n": o.get_usize("n", 3), "self": 0});
+        let i = run_case(&case);
+        println!("refused: {}", i["refused"]);
+        println!("gather: {}", i["gather"]);
+        for (k, v) in i["runs"].as_object().unwrap() { println!("{k}: rows={:?} {}", v["ok"].as_array().map(|a| a.len()), v.to_string().chars().take(o.get_usize("show", 300)).collect::<String>()); }
+        if o.get_usize("plans", 0) == 1 { println!("optimized: {}", i["optimized"]); println!("bound: {}", i["bound"]); }
+        return;
+    }
+    let gopts = GenOpts::from_opts(o, "join,subquery,cte,setop,distinct,subquery,join,sort_limit,agg,cte");
+    let per_cat = o.get_usize("per_cat", 8).max(1);
+    let mut r = Rng::new(o.seed ^ 0xC45);
+    let mut cat = gen_catalog(&mut r, &copts);
+    let mut layout = json!({"files": 1, "rg": 1000});
+    let mut n = 0usize; let mut attempts = 0usize;
+    while n < o.cases && attempts < o.cases * 6 + 16 {
+        if attempts % per_cat == 0 {
+            cat = gen_catalog(&mut r, &copts);
+            layout = json!({"files": 1 + r.below(3), "rg": *r.pick(&[2u64, 3, 5, 8, 16, 1000])});
+        }
+        attempts += 1;
+        let mut qr = r.fork();
+        let g = Gen::new(&mut qr, &cat, &gopts).generate(attempts);
+        let nn = *r.pick(&[1usize, 2, 2, 3, 3, 4, 5, 8]);
+        let self_ix = if r.chance(1, 4) { None } else { Some(r.below(nn as u64) as usize) };
+        let case = json!({"prop": "C45", "mode": "meta", "sql": g.q.sql(), "plan": g.q.plan(0), "tables": cat.tables_json(), "cat": cat.meta_json(),
+                          "tags": g.tags, "engine_defined": g.engine_defined, "layout": layout, "n": nn, "self": self_ix});
+        // only statements that take the gather path belong to this property
+        let takes_gather = match env_for(&case) {
+            Ok(env) => matches!(std::panic::catch_unwind(std::panic::AssertUnwindSafe(|| plan_distributed(&env.base, case["sql"].as_str().unwrap_or("")))), Ok(Err(QueryError::NotImplemented(_)))),
+            Err(_) => true,
+        };
+        if !takes_gather { continue; }
+        let imp = run_case(&case);
+        emit(case, imp);
+        n += 1;
+    }
+}
